@@ -2,14 +2,14 @@
 C07 — Channels account for every message with the specified delay, busy and drop rules.
 
 Only property theorems live here.  `Chan` is the model of `des::net::channel::Channel`
-(Model/Chan.lean, the code after the fix of finding F5), `ChanSrv` the abstract single server
+(Model/Chan.lean, the code after the fixes of findings F5 and F14), `ChanSrv` the abstract single server
 with a FIFO byte-bounded queue (Spec/ChanSrv.lean), `ChanRun` the event-level world both are run
 in and that the driver replays implementation logs against.
 
 All statements quantify over every metrics record `mt` (latency, jitter, Drop / Queue(None) /
-Queue(limit) with any limit incl. 0), every script `ops` of offers and unbusy dispatches that is
-consistent with event order (`mrun mt ops = .ok w`; a same-instant offer/unbusy pair may come in
-either order) and every message (length, transmission time — 0 included —, jitter sample: all
+Queue(limit) with any limit incl. 0), every script `ops` of offers, unbusy dispatches and exit
+dispatches that is consistent with event order (`mrun mt ops = .ok w`: the kernel's tie rule decides
+among the channel's own pending events; a same-instant offer may come before or after them) and every message (length, transmission time — 0 included —, jitter sample: all
 unbounded `Nat`s).  `w` is the world after the script.
 -/
 import Desverif.Proofs.ChanProps
@@ -140,11 +140,13 @@ theorem queue_fifo (mt : Metrics) (ops : List Op) (w : World State) (h : mrun mt
   · rw [hWR.started]; exact hI.noOverlap
 
 /-- **Queued messages start the instant the channel becomes idle.**  If a message waits, the channel
-    is busy and the only pending notification is due at `transmission_finish_time`; dispatching it
-    succeeds, happens at exactly that time and starts the head of the buffer at that time (followed,
+    is busy and the only pending notification is due at `transmission_finish_time`; once it is the
+    kernel's next event of the channel (`hk`: the exit events due before it are dispatched),
+    dispatching it succeeds, happens at exactly that time and starts the head of the buffer at that time (followed,
     at the same instant, by further waiting messages iff the preceding ones take no time). -/
 theorem queued_starts_when_idle (mt : Metrics) (ops : List Op) (w : World State)
-    (h : mrun mt ops = .ok w) (m : Msg) (rest : List Msg) (hq : w.chan.packets = m :: rest) :
+    (h : mrun mt ops = .ok w) (m : Msg) (rest : List Msg) (hq : w.chan.packets = m :: rest)
+    (hk : kmin w.kq = some (.unbusy w.chan.finish)) :
     w.chan.busy = true ∧ w.pend = [w.chan.finish] ∧
     ∃ w', step model mt w .unbusy = .ok w' ∧ w'.clock = w.chan.finish ∧
       ∃ more, w'.started = w.started ++ (w.chan.finish, m) :: more ∧
@@ -163,12 +165,13 @@ theorem queued_starts_when_idle (mt : Metrics) (ops : List Op) (w : World State)
   have hstep := step_refines mt hWR .unbusy
   obtain ⟨hp, hcf, _⟩ := hI.busy _ hs
   have hsstep : step spec mt ws .unbusy = .ok (advance ws w.chan.finish
-      (ChanSrv.drain mt w.chan.finish ws.chan.queue).1 []
+      (ChanSrv.drain mt w.chan.finish ws.chan.queue).1 [] (ws.kq.erase (.unbusy w.chan.finish))
       (ChanSrv.drain mt w.chan.finish ws.chan.queue).2.1
       (ChanSrv.drain mt w.chan.finish ws.chan.queue).2.2 []) := by
     simp only [step, hp, popMin_single]
     have : ¬ w.chan.finish < ws.clock := by omega
-    simp only [this, if_false, spec, ChanSrv.unbusy]
+    have hk' : kmin ws.kq = some (.unbusy w.chan.finish) := by rw [← hWR.kq]; exact hk
+    simp only [this, if_false, hk', ne_eq, not_true_eq_false, spec, ChanSrv.unbusy]
   rw [hsstep] at hstep
   cases hm : step model mt w .unbusy with
   | error e => rw [hm] at hstep; exact hstep.elim
@@ -289,68 +292,79 @@ theorem zero_jitter_preserves_offer_order (mt : Metrics) (ops : List Op) (w : Wo
     rw [List.map_map] at this
     exact this
 
-/-- **Tie order, partial.**  If the latency is positive or no transmission time is zero, every exit
-    event is scheduled with a positive delay; together with the previous theorem: of two exit events
-    the later-offered one is due strictly later, or at the same time but scheduled (later, and) with
-    a positive delay — which the event kernel dispatches after the earlier one (C03
-    `others_in_schedule_order`).  So deliveries preserve offer order also among equal timestamps. -/
-theorem zero_jitter_dispatch_order_partial (mt : Metrics) (ops : List Op) (w : World State)
-    (h : mrun mt ops = .ok w) (hj : ∀ m ∈ w.offered, m.j = 0)
-    (hpos : 0 < mt.latency ∨ ∀ m ∈ w.offered, 0 < m.tx) :
-    (∀ e ∈ w.exits, e.sched < e.time) ∧
-    w.exits.Pairwise (fun a b => a.time < b.time ∨ (a.time = b.time ∧ b.sched < b.time)) := by
-  obtain ⟨hex, _⟩ := delivery_time_formula mt ops w h
-  have hdelay : ∀ e ∈ w.exits, e.sched < e.time := by
-    intro e he
-    rw [hex] at he
-    simp only [List.mem_map] at he
-    obtain ⟨p, hp, rfl⟩ := he
-    have hmem : p.2 ∈ w.offered := by
-      have := (each_message_one_fate mt ops w h).1
-      rw [this.mem_iff]
-      simp only [List.mem_append, List.mem_map]
-      exact Or.inl (Or.inl (Or.inl ⟨p, hp, rfl⟩))
-    rcases hpos with hl | htx
-    · show p.1 < p.1 + (mt.latency + p.2.tx + p.2.j); omega
-    · have := htx p.2 hmem
-      show p.1 < p.1 + (mt.latency + p.2.tx + p.2.j); omega
-  refine ⟨hdelay, ?_⟩
-  have hmono := (zero_jitter_preserves_offer_order mt ops w h hj).1
-  rw [List.pairwise_map] at hmono
-  refine List.Pairwise.imp_of_mem ?_ hmono
-  intro a b _ hb hab
-  have := hdelay b hb
-  omega
+/-- **Zero jitter: deliveries preserve offer order — also among equal timestamps** (full strength;
+    this failed before the fix of F14).  In every kernel-consistent history the messages that have
+    left the channel are exactly the first exit events in scheduling order — which is the order in
+    which the transmissions started, a subsequence of offer order: no exit event is ever dispatched
+    while an older one is pending, whatever the latency and the transmission times (0 included).
+    Moreover the exit event the kernel takes next is always the oldest undelivered one. -/
+theorem zero_jitter_dispatch_order (mt : Metrics) (ops : List Op) (w : World State)
+    (h : mrun mt ops = .ok w) (hj : ∀ m ∈ w.offered, m.j = 0) :
+    w.delivered = (w.started.take w.delivered.length).map (·.2.id) ∧
+    w.delivered.Sublist (w.offered.map (·.id)) ∧
+    (∀ e, kmin w.kq = some (.exit e) → (w.exits.drop w.delivered.length).head? = some e) := by
+  obtain ⟨ws, _, hWR, hI, hK⟩ := minvK h hj
+  have hd : w.delivered = (w.started.take w.delivered.length).map (·.2.id) := by
+    have := hK.delivered
+    rw [← hWR.delivered, ← hWR.exits, (delivery_time_formula mt ops w h).1, ← List.map_take,
+      List.map_map] at this
+    exact this
+  refine ⟨hd, ?_, ?_⟩
+  · rw [hd]
+    have h1 : (w.started.take w.delivered.length).Sublist w.started := List.take_sublist _ _
+    have h2 : (w.started.map (·.2)).Sublist w.offered :=
+      (List.sublist_append_left _ _).trans (queue_fifo mt ops w h).1
+    have := (h1.map (·.2)).trans h2
+    have := this.map (·.id)
+    rw [List.map_map] at this
+    exact this
+  · intro e he
+    have hsorted := hK.sorted (by rw [← hWR.offered]; exact hj)
+    obtain ⟨rest, hrest⟩ := kmin_exit_head hsorted (by rw [← hK.kq, ← hWR.kq]; exact he)
+    rw [hWR.exits, hWR.delivered]
+    show (pexits ws).head? = some e
+    rw [hrest]; rfl
 
-/-- **Tie order, witness (finding F14).**  Latency 0, no jitter, `Queue(None)`: a message with a
-    positive transmission time followed by one whose transmission time rounds to 0.  The second
-    exit event is scheduled *for the current instant* (zero delay) while the first, with the same
-    timestamp, is still pending — the hypothesis of the partial theorem fails, … -/
-theorem zero_jitter_dispatch_order_witness :
+/-- The situation of F14 on the repaired code (latency 0, no jitter, `Queue(None)`, a message with a
+    positive transmission time followed by one whose transmission time rounds to 0): the kernel
+    hands message 1 out, then dispatches the unbusy notification, then hands out message 2 … -/
+theorem zero_jitter_dispatch_order_f14_example :
     (mrun ⟨0, 0, .queue none⟩
-        [.offer 0 ⟨1, 1000000, 4000, 0⟩, .offer 0 ⟨2, 64, 0, 0⟩, .unbusy]).toOption.map (·.exits) =
-      some [⟨0, 4000, 1⟩, ⟨4000, 4000, 2⟩] := by decide
+        [.offer 0 ⟨1, 1000000, 4000, 0⟩, .offer 0 ⟨2, 64, 0, 0⟩, .deliver, .unbusy, .deliver]).toOption.map
+      (·.delivered) = some [1, 2] ∧
+    -- … and a history in which the unbusy notification is dispatched first is not a kernel history
+    (match mrun ⟨0, 0, .queue none⟩
+        [.offer 0 ⟨1, 1000000, 4000, 0⟩, .offer 0 ⟨2, 64, 0, 0⟩, .unbusy] with
+      | .error .order => true
+      | _ => false) = true := by
+  decide
 
-/-- … and the event kernel (abstract event set of C01/C03: events scheduled for the current instant
-    are dispatched first) hands out the second message's exit (payload 2) *before* the first
-    message's (payload 1): unbusy (payload 100) and exit 1 are scheduled at time 0 for 4000; the
-    unbusy is fetched; exit 2 is scheduled at 4000 for 4000. -/
-theorem zero_jitter_dispatch_order_witness_kernel :
+/-- **Pre-repair order, witness.**  Event kernel (abstract event set of C01/C03: events scheduled for
+    the current instant are dispatched first): with the unbusy notification (payload 100) scheduled
+    *before* exit 1 — the order of `sink.add` calls before the fix — the unbusy is fetched at 4000,
+    exit 2 is scheduled at 4000 for 4000 and overtakes the older pending exit 1 … -/
+theorem pre_repair_order_witness_kernel :
     (CQRun.srun [.add 4000 100, .add 4000 1, .fetch, .add 4000 2, .fetch, .fetch]).2 =
       [.added, .added, .fetched 100 4000, .added, .fetched 2 4000, .fetched 1 4000] := by decide
 
+/-- … whereas with exit 1 scheduled before the unbusy notification it is fetched first. -/
+theorem repaired_order_kernel :
+    (CQRun.srun [.add 4000 1, .add 4000 100, .fetch, .fetch, .add 4000 2, .fetch]).2 =
+      [.added, .added, .fetched 1 4000, .fetched 100 4000, .added, .fetched 2 4000] := by decide
+
 /-! ### Non-vacuity: a history with a burst into a byte-bounded queue (accept up to the limit,
 reject beyond), a drain of two zero-time messages by one unbusy, a same-instant offer before the
-unbusy, and quiescence. -/
+unbusy, exit dispatches interleaved as the kernel demands, and quiescence. -/
 
 def demoMt : Metrics := ⟨100, 5, .queue (some 128)⟩
 
 def demoOps : List Op :=
   [.offer 0 ⟨1, 100, 10, 3⟩, .offer 0 ⟨2, 64, 0, 0⟩, .offer 5 ⟨3, 64, 0, 5⟩, .offer 5 ⟨4, 64, 0, 0⟩,
-   .unbusy, .offer 10 ⟨5, 70, 7, 1⟩, .offer 17 ⟨6, 64, 2, 0⟩, .unbusy, .unbusy]
+   .unbusy, .offer 10 ⟨5, 70, 7, 1⟩, .offer 17 ⟨6, 64, 2, 0⟩, .unbusy, .unbusy,
+   .deliver, .deliver, .deliver, .deliver, .deliver]
 
 example : (mrun demoMt demoOps).toOption.map (fun w => (w.clock, w.chan.busy, w.pend)) =
-    some (19, false, []) := by decide
+    some (119, false, []) := by decide
 
 example : (mrun demoMt demoOps).toOption.map (fun w => w.started.map (fun p => (p.1, p.2.id))) =
     some [(0, 1), (10, 2), (10, 3), (10, 5), (17, 6)] := by decide
@@ -360,16 +374,23 @@ example : (mrun demoMt demoOps).toOption.map (fun w => w.dropFull.map (·.id)) =
 example : (mrun demoMt demoOps).toOption.map (fun w => w.exits.map (fun e => (e.time, e.id))) =
     some [(113, 1), (110, 2), (115, 3), (118, 5), (119, 6)] := by decide
 
-/-- a busy world with a waiting message (hypotheses of `queued_starts_when_idle`,
-    `queue_accepts_iff_bytes_fit`) -/
-example : (mrun demoMt (demoOps.take 3)).toOption.map
-    (fun w => (w.chan.busy, w.chan.finish, w.chan.packets.map (·.id), w.chan.acc)) =
-    some (true, 10, [2, 3], 128) := by decide
+/-- with jitter the kernel delivers by timestamp: 2 before 1 -/
+example : (mrun demoMt demoOps).toOption.map (·.delivered) = some [2, 1, 3, 5, 6] := by decide
 
-/-- zero jitter, positive latency (hypotheses of the order theorems) -/
-example : (mrun ⟨1, 0, .queue none⟩
-    [.offer 0 ⟨1, 100, 10, 0⟩, .offer 0 ⟨2, 64, 0, 0⟩, .unbusy]).toOption.map
-    (fun w => w.exits.map (fun e => (e.sched, e.time, e.id))) = some [(0, 11, 1), (10, 11, 2)] := by decide
+/-- a busy world with a waiting message whose unbusy notification is the kernel's next channel event
+    (hypotheses of `queued_starts_when_idle`, `queue_accepts_iff_bytes_fit`) -/
+example : (mrun demoMt (demoOps.take 3)).toOption.map
+    (fun w => (w.chan.busy, w.chan.finish, w.chan.packets.map (·.id), w.chan.acc,
+               decide (kmin w.kq = some (.unbusy w.chan.finish)))) =
+    some (true, 10, [2, 3], 128, true) := by decide
+
+/-- zero jitter, zero latency, zero and non-zero transmission times, same-instant bursts
+    (hypotheses of the order theorems): delivered in offer order -/
+example : (mrun ⟨0, 0, .queue none⟩
+    [.offer 0 ⟨1, 100, 10, 0⟩, .offer 0 ⟨2, 64, 0, 0⟩, .offer 10 ⟨3, 64, 0, 0⟩, .deliver, .unbusy,
+     .deliver, .deliver, .offer 10 ⟨4, 64, 0, 0⟩, .deliver]).toOption.map
+    (fun w => (w.delivered, w.exits.map (fun e => (e.sched, e.time, e.id)))) =
+    some ([1, 2, 3, 4], [(0, 10, 1), (10, 10, 2), (10, 10, 3), (10, 10, 4)]) := by decide
 
 example : (srun demoMt demoOps).toOption.map (·.started) =
     (mrun demoMt demoOps).toOption.map (·.started) := by decide
